@@ -41,6 +41,7 @@ def random_lens(rnd):
     stop = rnd.choice([1, n, rnd.randint(1, n)])
     sign = 1.0
     in_glass = False
+    late = []
     meta = {"nsurf": n, "finite_object": finite, "stop": stop, "mirrors": 0, "aspheres": 0, "conics": 0}
     for j in range(1, n + 1):
         plane = rnd.random() < 0.12
@@ -69,8 +70,15 @@ def random_lens(rnd):
         kw["material"] = material
         t = rnd.uniform(0.5, 12.0) if in_glass else rnd.uniform(0.5, 40.0)
         kw["thickness"] = sign * t
+        # a lens is a prescription, however it came about: one sphere in five is entered flat and
+        # receives its radius afterwards through the public setter
+        if "surface_type" not in kw and "conic" not in kw and not plane and rnd.random() < 0.2:
+            late.append((j, kw.pop("radius")))
         quiet(o.add_surface, **kw)
     o.add_surface(index=n + 1)
+    for j, R in late:
+        o.set_radius(R, j)
+    meta["radius_set_afterwards"] = len(late)
     apt = rnd.choice(["EPD", "EPD", "imageFNO", "objectNA"] if finite else ["EPD", "EPD", "imageFNO"])
     o.set_aperture("EPD", epd)
     o.add_wavelength(0.5876, is_primary=True)
